@@ -778,7 +778,19 @@ def c15_s(draw, pid, tier, opts=None):
     nreg = draw(st.integers(0, len(UNIVERSE_REG)))
     regs = draw(st.permutations(list(range(len(UNIVERSE_REG)))))[:nreg]
     points = [draw(st.integers(0, nloads)) for _ in regs]    # registration happens before load #point (nloads = after the last)
-    return {"files": files, "regs": list(regs), "points": points}
+    case = {"files": files, "regs": list(regs), "points": points}
+    if len(regs) >= 2 and draw(st.integers(0, 4)) == 0:
+        # some string settings are registered by the change hook of another registered setting (a module that learns
+        # from one setting that it needs another): registration then happens in the middle of a load
+        strs = [j for j, ri in enumerate(regs) if UNIVERSE_REG[ri][2] == "s"]
+        hookregs = []
+        for j in draw(st.lists(st.sampled_from(strs), max_size=2, unique=True)) if strs else []:
+            t = draw(st.sampled_from([x for x in range(len(regs)) if x != j]))
+            if all(t != hj for hj, _ in hookregs) and all(j != ht for _, ht in hookregs):
+                hookregs.append([j, t])
+                points[j] = -1
+        case["hookregs"] = hookregs
+    return case
 
 
 def effective(node):
@@ -893,9 +905,15 @@ def eval_c15(case, ctx):
     paths = [write(ctx, "f%d.conf" % i, render_simple(f)) for i, f in enumerate(files)]
     cmds = []
     marks = []     # (index of 'L' response, dump-before idx, dump-after idx, hooks idx)
+    hookregs = [tuple(x) for x in case.get("hookregs") or []]
     for k in range(nloads + 1):
         here = [regs[j] for j, p in enumerate(case["points"]) if p == k]
         cmds += reg_cmds(here)
+        for hi, (j, t) in enumerate(hookregs):
+            if case["points"][t] == k:
+                tp, tn = regs[t][0], regs[t][1]
+                jp, jn, _, jpar = regs[j]
+                cmds.append("reg_onhook %s %s %s %d %s %d" % ("/".join(hx(lkey(x)) for x in tp + [tn]), "/".join(hx(x) for x in jp) or ".", hx(jn), jpar[0], hx(jpar[1]), hi))
         if k < nloads:
             cmds += ["dump", "hooks"]
             i_before = len(cmds) - 2
@@ -916,6 +934,21 @@ def eval_c15(case, ctx):
     final, problems = parse_dump(r.responses[-1])
     if problems:
         res.violations.append(V("C15", "tree_corrupt", "; ".join(problems[:2])))
+    # registrations performed by hooks: "R <index> <path>" lines in the hook logs tell in which load they happened
+    fired = {}
+    for li, (iL, iB, iA, iH) in enumerate(marks):
+        for h in r.responses[iH]:
+            if h.startswith("R "):
+                fired.setdefault(int(h.split(" ")[1]), li)
+    for resp in r.responses:
+        for h in resp:
+            if isinstance(h, str) and h.startswith("R ") and int(h.split(" ")[1]) not in fired:
+                fired[int(h.split(" ")[1])] = -1          # while registering, outside any load
+    all_regs = regs
+    hook_j = {j: hi for hi, (j, t) in enumerate(hookregs)}
+    regs = [rg for j, rg in enumerate(all_regs) if j not in hook_j or hook_j[j] in fired]
+    if hookregs:
+        res.classes.add("registration_from_a_hook" if fired else "hook_registration_never_triggered")
     tree, exp = model_final(files[-1], regs)
     # (1) registered settings = file value or default
     for (parent, name, kind), (val, sub) in exp.items():
@@ -950,19 +983,20 @@ def eval_c15(case, ctx):
     for li, (iL, iB, iA, iH) in enumerate(marks):
         before, _ = parse_dump(r.responses[iB])
         after, _ = parse_dump(r.responses[iA])
-        hooks = r.responses[iH]
+        hooks = [h for h in r.responses[iH] if not h.startswith("R ")]
         hooked = set()
         for h in hooks:
             t = h.split(" ")
             # node names keep the spelling of whoever created them first: compare case-insensitively
             hooked.add((int(t[1]), "." if t[2] == "." else "/".join(lkey(unhx(x)) for x in t[2].split("/"))))
-        if li > 0 and files[li] == files[li - 1] and not any(p == li for p in case["points"]):
+        if li > 0 and files[li] == files[li - 1] and not any(p == li for p in case["points"]) and not any(v >= li - 1 for v in fired.values()):
             res.classes.add("identical_reload")
             if r.responses[iB] != r.responses[iA]:
                 res.violations.append(V("C15", "identical_reload_changes", "loading the same content twice changed the tree"))
             if hooks:
                 res.violations.append(V("C15", "identical_reload_notifies", "loading the same content twice ran hooks: %s" % hooks[:3]))
-        active = [regs[j] for j, p in enumerate(case["points"]) if p <= li]
+        active = [all_regs[j] for j, p in enumerate(case["points"]) if 0 <= p <= li]
+        active += [all_regs[j] for j, hi in hook_j.items() if hi in fired and fired[hi] < li]
         for parent, name, kind, params in active:
             nb = lookup(before, parent, name, kind)
             na = lookup(after, parent, name, kind)
@@ -985,7 +1019,12 @@ def eval_c15(case, ctx):
             oa = lookup(after, list(op[:-1]), op[-1], "o")
             if ob is None or oa is None:
                 continue
-            if set(ob["children"].keys()) != set(oa["children"].keys()):
+            reg_now = {(lkey(all_regs[j][1]), all_regs[j][2]) for j, hi in hook_j.items()
+                       if fired.get(hi) == li and tuple(all_regs[j][0]) == tuple(op)}
+            # ... and so are the objects on the way to a setting registered deeper down
+            reg_now |= {(lkey(all_regs[j][0][len(op)]), "o") for j, hi in hook_j.items()
+                        if fired.get(hi) == li and len(all_regs[j][0]) > len(op) and tuple(all_regs[j][0][:len(op)]) == tuple(op)}
+            if set(ob["children"].keys()) - reg_now != set(oa["children"].keys()) - reg_now:
                 hp = "/".join(lkey(p) for p in op)
                 if (3, hp) not in hooked:
                     res.violations.append(V("C15", "object_hook_missing", "load %d changed the membership of object %s but its hook did not run" % (li, "/".join(op))))
